@@ -560,16 +560,17 @@ class Ptychography(PtychographyOpt, PtychographyVisualizations, PtychographyBase
         elif dset is not None:
             dset._set_initial_scan_positions_px(ptycho.obj_padding_px)
             dset._set_patch_indices(ptycho.obj_padding_px)
+
+        # check if dset was attached to ptycho object
+        if dset is not None:
             if hasattr(ptycho, "_dataset_metadata") and ptycho._dataset_metadata:
                 metadata = ptycho._dataset_metadata
-                # preserve learned scan positions and descan shifts
+                # preserve learned scan positions and descan shifts (for a supplied dataset
+                # and for one reloaded from its file alike)
                 if "learned_scan_positions_px" in metadata:
                     dset.scan_positions_px.data = metadata["learned_scan_positions_px"]
                 if "learned_descan_shifts" in metadata:
                     dset.descan_shifts.data = metadata["learned_descan_shifts"]
-
-        # check if dset was attached to ptycho object
-        if dset is not None:
             ptycho.dset = dset
         elif not (hasattr(ptycho, "_dset") and ptycho._dset is not None):
             warn(
